@@ -191,7 +191,7 @@ theorem contentSetLength_ok {amb : List Nat} {s : State} {b : Nat} {x : Buf} (gs
           · exact h
           · have := mt.2.2; omega
         subst l0
-        exact insert_fill_step gs hb xt mt hu ins fit (Built.refl s2 b z' t.size p ins.buf) (Or.inl ⟨rfl, rfl⟩)
+        exact insert_fill_step gs hb xt mt hu ins fit (Built.refl s2 b z' t.size p ins.buf) (fun _ hk => by cases hk) (Or.inl ⟨rfl, rfl⟩)
       · rw [he]
         have ufit : (N + m) * t.size ≤ z'.size := by
           simp only [Buf.size, dl]
@@ -330,10 +330,42 @@ theorem uReserve_typed {amb : List Nat} {s : State} (gs : GoodS amb s) {h : Nat}
       obtain ⟨st, hh1, z, hz, zt, _⟩ := es
       exact ⟨st, nb, z, hh1, hz, zt⟩
 
-/-- `unique_array::insert(pos)`: reserve, `mpt_buffer_insert` of one element, placement construction -/
+/-- placement copy construction by the caller (never refused): one element built from the source token `src` -/
+theorem placeCopy_built {s : State} {nb : Nat} {x : Buf} (h p : Nat) (k : XKind) (val : Option (List Byte)) (src : Nat)
+    (mt : Managed k.t) (hb : s.buf? nb = some x) (fit : (p + 1) * k.t.size ≤ x.size) :
+    ∃ s1 d', placeElem s h nb (p * k.t.size) k val (some src) = .ok s1 () ∧ Built s s1 nb x k.t.size p 1 [src] d' x.used := by
+  have h4 := mt.2.2
+  have e2 : (p + 1) * k.t.size = p * k.t.size + k.t.size := by rw [Nat.add_mul]; simp
+  have f1 : p * k.t.size + k.t.size ≤ x.size := by rw [← e2]; exact fit
+  have f1' : (p + 1) * k.t.size ≤ x.data.length := by simp only [Buf.size] at fit; exact fit
+  unfold placeElem
+  rw [if_pos ⟨mt.1, mt.2.1⟩]
+  have hb0 : ({ s with oracle := [] } : State).buf? nb = some x := hb
+  rcases initAt_cases (some src) hb0 f1 with ⟨s1, he, fr, hb1, n1, l1, o1⟩ | ⟨s1, he, fr, hb1, n1, l1, o1⟩
+  · cases o1
+  · rw [he]
+    simp only
+    have wl := construct_length x.data k.t.size p s.next h4 f1'
+    refine ⟨_, _, rfl, ⟨⟨fr.hs, fr.wins, fr.len, fr.other⟩, hb1, wl, n1, ⟨[Ev.copy s.next src], ?_, ?_⟩, ?_, ?_⟩⟩
+    · show s1.log = _; rw [l1]; rfl
+    · exact Creates.copy (by simp) (Creates.nil _)
+    · intro j hj
+      exact slot_construct_other x.data k.t.size p s.next h4 f1' j (by omega)
+    · intro small j h1 h2
+      have e : j = p := by omega
+      have sm : s.next < tokLimit := by
+        have : s1.next ≤ tokLimit := small
+        rw [n1] at this
+        have : ({ s with oracle := [] } : State).next = s.next := rfl
+        omega
+      rw [e, slot_construct_same x.data k.t.size p s.next h4 f1' sm]; omega
+
+/-- `unique_array::insert(pos)` / `typed_array::insert(pos, val)`: reserve, `mpt_buffer_insert` of one element,
+    placement construction — default, or a copy of an element the caller holds (`copySrc`, an ambient live token) -/
 theorem uInsert_ok {amb : List Nat} {s : State} (gs : GoodS amb s) {h : Nat} (hlt : h < s.hs.length) (k : XKind) (mt : Managed k.t)
     (hk : ∀ b x, s.handle h = some b → s.buf? b = some x → x.traits = some k.t)
-    (pos : Int) (val : Option (List Byte)) : OpOK amb s (uInsert s h k pos val none) := by
+    (pos : Int) (val : Option (List Byte)) (copySrc : Option Nat) (hsrc : ∀ c, copySrc = some c → c ∈ amb) :
+    OpOK amb s (uInsert s h k pos val copySrc) := by
   have h4 := mt.2.2
   have szp : 0 < k.t.size := by omega
   unfold uInsert
@@ -359,7 +391,6 @@ theorem uInsert_ok {amb : List Nat} {s : State} (gs : GoodS amb s) {h : Nat} (hl
       · omega
       · rw [he]
         simp only
-        rw [placeElem_eq _ _ _ _ _ _ mt]
         have e1 : p' = p := (Nat.eq_of_mul_eq_mul_right szp ep).symm
         have e2 : l = 1 := by
           have : 1 * k.t.size = l * k.t.size := by rw [Nat.one_mul]; exact el
@@ -368,14 +399,144 @@ theorem uInsert_ok {amb : List Nat} {s : State} (gs : GoodS amb s) {h : Nat} (hl
         have fit' : (p' + 1) * k.t.size ≤ z'.size := by
           have : (p' + 1) * k.t.size ≤ (max n p' + 1) * k.t.size := Nat.mul_le_mul_right _ (by omega)
           simp only [Buf.size, ins.len]; simp only [Buf.size] at fit; omega
-        obtain ⟨s3, d', ec, bt, _⟩ := ctorLoop_spec 1 s2 nb p' k.t.size z' ins.buf h4 fit'
-        rw [ec]
-        exact st.trans (insert_fill_step st.good hz zt mt hu ins fit bt (Or.inl ⟨rfl, rfl⟩))
+        cases copySrc with
+        | none =>
+          rw [placeElem_eq _ _ _ _ _ _ mt]
+          obtain ⟨s3, d', ec, bt, _⟩ := ctorLoop_spec 1 s2 nb p' k.t.size z' ins.buf h4 fit'
+          rw [ec]
+          exact st.trans (insert_fill_step st.good hz zt mt hu ins fit bt (fun _ hk => by cases hk) (Or.inl ⟨rfl, rfl⟩))
+        | some src =>
+          obtain ⟨s3, d', ec, bt⟩ := placeCopy_built h p' k val src mt ins.buf fit'
+          rw [ec]
+          exact st.trans (insert_fill_step st.good hz zt mt hu ins fit bt
+            (fun c hc => by simp only [List.mem_singleton] at hc; rw [hc]; exact hsrc src rfl) (Or.inl ⟨rfl, rfl⟩))
       · rw [he]
         have ufit : (n + m) * k.t.size ≤ z'.size := by
           simp only [Buf.size, dl]
           have : (n + m) * k.t.size ≤ p' * k.t.size := Nat.mul_le_mul_right _ (by omega)
           simp only [Buf.size] at pfit; omega
         exact st.trans (append_step st.good hz zt mt hu fr hb' r tr u' ufit n' lg lo inn)
+
+/-- `Elem val; insert(pos, val)`: the temporary source element around the call -/
+theorem uInsertE_ok {s : State} (gs : GoodS [] s) {h : Nat} (hlt : h < s.hs.length) (k : XKind) (mt : Managed k.t)
+    (hk : ∀ b x, s.handle h = some b → s.buf? b = some x → x.traits = some k.t) (pos : Int) :
+    OpOK [] s (uInsertE s h k pos) := by
+  unfold uInsertE
+  have gI := goodS_sourcesInit gs 1
+  have inner := uInsert_ok gI (h := h) hlt k mt hk pos none (some s.next)
+    (by intro c e; cases e; simp [seqFrom])
+  generalize uInsert (sourcesInit s 1) h k pos none (some s.next) = r at inner
+  cases r with
+  | fault w => exact inner
+  | fail s' e => exact step_sources_wrap gs 1 s' inner
+  | ok s' v => exact step_sources_wrap gs 1 s' inner
+
+theorem OpOK.unit {α : Type} {amb : List Nat} {s : State} {r : Out α} (h : OpOK amb s r) : OpOK amb s r.unit := by
+  cases r <;> exact h
+
+/-- `~reference()` -/
+theorem refDrop_ok {amb : List Nat} {s : State} (gs : GoodS amb s) {h : Nat} (hlt : h < s.hs.length) : OpOK amb s (refDrop s h) := by
+  unfold refDrop
+  have := clone_ok gs hlt none
+  unfold arrayClone at this
+  exact this.unit
+
+/-- `reference<T>::operator=`: the handle shares the buffer of `src` -/
+theorem refAssign_ok {amb : List Nat} {s : State} (gs : GoodS amb s) {dst : Nat} (hlt : dst < s.hs.length) (src : Nat) :
+    OpOK amb s (refAssign s dst src) := by
+  unfold refAssign
+  split
+  · exact Step.refl gs
+  · rename_i diff
+    cases hs : s.handle src with
+    | none =>
+      simp only
+      exact (replaceBuf_ok gs hlt none (by intro a e; cases e) (by rw [← hs]; exact fun e => diff e.symm) rfl rfl rfl rfl rfl (by intro c; simp)).unit
+    | some a =>
+      simp only
+      obtain ⟨x, ha⟩ := gs.inv.live src a hs
+      have alt := State.buf?_lt ha
+      have r := gs.inv.ref a x ha
+      unfold addref
+      rw [ha]
+      have r0 : ¬ x.ref = 0 := by omega
+      simp only [r0, if_false]
+      have key := replaceBuf_ok (s1 := s.setBuf a { x with ref := x.ref + 1 }) gs hlt (some a)
+        (by intro a' e; cases e; exact ⟨x, ha⟩) (by rw [← hs]; exact fun e => diff e.symm) rfl (by simp) rfl rfl rfl
+        (by
+          intro c
+          rw [State.buf?_setBuf _ _ _ _ alt]
+          by_cases ca : c = a
+          · subst ca; simp [ha]
+          · have : ¬ some a = some c := by intro e; cases e; exact ca rfl
+            simp [ca, this])
+      have nz : x.ref + 1 ≠ 0 := by omega
+      generalize x.ref + 1 = k at nz key
+      cases k with
+      | zero => exact absurd rfl nz
+      | succ k => exact key.unit
+
+/-! ### the C++ operations as an alphabet -/
+
+/-- operations of `typed_array<T>` / `unique_array<T>` (element kind `k`) as the harness performs them -/
+inductive XEOp where
+  | resize (h n : Nat)
+  | trim (h n : Nat)                                      -- detach() + buffer::trim
+  | skip (h n : Nat)                                      -- detach() + buffer::skip
+  | insert (h : Nat) (pos : Int) (val : Option (List Byte))   -- insert(pos): default / placement construction
+  | insertCopy (h : Nat) (pos : Int)                      -- `T val; insert(pos, val)`
+  | reserve (h n : Nat)
+  | detach (h : Nat)
+  | assign (dst src : Nat)                                -- operator= / copy construction
+  | drop (h : Nat)                                        -- destruction
+
+def XEOp.handle : XEOp → Nat
+  | .resize h _ | .trim h _ | .skip h _ | .insert h _ _ | .insertCopy h _ | .reserve h _ | .detach h | .assign h _ | .drop h => h
+
+def execXE (s : State) (k : XKind) : XEOp → Out Unit
+  | .resize h n => uResize s h k n
+  | .trim h n => xTrim s h k n
+  | .skip h n => xSkip s h k n
+  | .insert h pos val => uInsert s h k pos val none
+  | .insertCopy h pos => uInsertE s h k pos
+  | .reserve h n => uReserve s h k n
+  | .detach h => uDetach s h k
+  | .assign d src => refAssign s d src
+  | .drop h => refDrop s h
+
+/-- the handle exists and its buffer (if any) has the array's element type -/
+def XEOp.pre (s : State) (k : XKind) (op : XEOp) : Prop :=
+  op.handle < s.hs.length ∧ Managed k.t ∧ ∀ b x, s.handle op.handle = some b → s.buf? b = some x → x.traits = some k.t
+
+theorem execXE_ok {s : State} (gs : GoodS [] s) (k : XKind) (op : XEOp) (pre : op.pre s k) : OpOK [] s (execXE s k op) := by
+  obtain ⟨hlt, mt, hk⟩ := pre
+  cases op with
+  | resize h n => exact uResize_ok gs hlt k mt n
+  | trim h n => exact xTrim_ok gs hlt k mt n
+  | skip h n => exact xSkip_ok gs hlt k mt n
+  | insert h pos val => exact uInsert_ok gs hlt k mt hk pos val none (by intro c e; cases e)
+  | insertCopy h pos => exact uInsertE_ok gs hlt k mt hk pos
+  | reserve h n => exact uReserve_ok gs hlt k mt n
+  | detach h => exact uDetach_ok gs hlt k mt
+  | assign d src => exact refAssign_ok gs hlt src
+  | drop h => exact refDrop_ok gs hlt
+
+/-- histories that mix the C operations (`EOp`) and the C++ operations (`XEOp`, each with its element kind) -/
+inductive HistX : State → List (EOp ⊕ (XKind × XEOp)) → State → Prop where
+  | nil (s : State) : HistX s [] s
+  | c {s s1 s2 : State} {op : EOp} {ops} : op.pre s → (execE s op = .ok s1 () ∨ ∃ e, execE s op = .fail s1 e) → HistX s1 ops s2 →
+      HistX s (.inl op :: ops) s2
+  | x {s s1 s2 : State} {k : XKind} {op : XEOp} {ops} : op.pre s k → (execXE s k op = .ok s1 () ∨ ∃ e, execXE s k op = .fail s1 e) →
+      HistX s1 ops s2 → HistX s (.inr (k, op) :: ops) s2
+
+theorem HistX.step {s s' : State} {ops} (hi : HistX s ops s') (gs : GoodS [] s) : Step [] s s' := by
+  induction hi with
+  | nil s => exact Step.refl gs
+  | c pre he _ ih =>
+    have := execE_ok gs _ pre
+    rcases he with he | ⟨e, he⟩ <;> (rw [he] at this; exact Step.trans this (ih this.good))
+  | x pre he _ ih =>
+    have := execXE_ok gs _ _ pre
+    rcases he with he | ⟨e, he⟩ <;> (rw [he] at this; exact Step.trans this (ih this.good))
 
 end Mpt.Heap
